@@ -77,7 +77,7 @@ theorem ranges_eq :
 theorem precision_eq : Gen.C03.basePrecision = Dec.basePrecision := by decide
 
 /-! ### fingerprints of the hand-transcribed functions -/
-theorem pin_adt_SimplifyBounds : Gen.C03.pin_adt_SimplifyBounds = "f65530206a03eddb" := by decide
+theorem pin_adt_SimplifyBounds : Gen.C03.pin_adt_SimplifyBounds = "a045e09e37d9b75c" := by decide
 theorem pin_adt_errIncompatibleBounds : Gen.C03.pin_adt_errIncompatibleBounds = "39ae5aa39eb08248" := by decide
 theorem pin_adt_opInfo : Gen.C03.pin_adt_opInfo = "ac1dec46ed039f64" := by decide
 theorem pin_adt_cmpTonode : Gen.C03.pin_adt_cmpTonode = "b3615dae370638bb" := by decide
